@@ -50,6 +50,8 @@ def spine_table_sets():
     yield {"M": [["A1", "A2", "A3", "A4", "A5"]], **{f"A{i}": [["p"], ["q", "q"]] for i in range(1, 6)}}
     # four lines per particle
     yield {"M": [["X"], ["X", "Y"], ["p"], ["Y", "Y"]], "X": [["p"], ["q"], ["Y"], ["p", "q"]], "Y": [["p"], ["q"], ["p", "p"], []]}
+    # identical decay lines (each is an entry of its own)
+    yield {"M": [["X", "p"], ["X", "p"], ["q"], ["X", "p"]], "X": [["p"], ["p"], ["Y"], ["Y"]], "Y": [[], []]}
     # empty blocks everywhere below
     yield {"M": [["X", "Y", "Z"], ["X"]], "X": [], "Y": [], "Z": []}
 
